@@ -37,6 +37,7 @@ type HarnessInfo struct {
 	Timeout  int
 	Solver   string
 	Logic    string
+	Frontier int
 	Doc      string
 }
 
@@ -96,10 +97,22 @@ func buildOverlay(dirs []string, withTest bool) map[string][]byte {
 			ov[filepath.Join(RepoDir, d, "zz_verif_replay_test.go")] = bytes.Replace(tt, []byte("PKGNAME"), []byte(pn), 1)
 		}
 		files, _ := filepath.Glob(filepath.Join(VerifDir, "harness", d, "*.go"))
+		usesAd := false
 		for _, f := range files {
 			b, _ := os.ReadFile(f)
 			ov[filepath.Join(RepoDir, d, "zz_verif_"+filepath.Base(f))] = b
+			if bytes.Contains(b, []byte("vPeerAd(")) {
+				usesAd = true
+			}
 		}
+		if usesAd {
+			rc, _ := os.ReadFile(filepath.Join(VerifDir, "harness", "rt_classad.go.tmpl"))
+			ov[filepath.Join(RepoDir, d, "zz_verif_rt_classad.go")] = bytes.Replace(rc, []byte("PKGNAME"), []byte(pn), 1)
+		}
+	}
+	if err := applySeams(ov); err != nil {
+		fmt.Fprintln(os.Stderr, "seam rewriting failed:", err)
+		ov["/repo/__verif_seam_error__.go"] = []byte("package broken // " + err.Error())
 	}
 	return ov
 }
@@ -181,6 +194,8 @@ func Load(dirs []string) (*Loaded, error) {
 						h.Solver = f[1]
 					case "logic":
 						h.Logic = f[1]
+					case "frontier":
+						h.Frontier, _ = strconv.Atoi(f[1])
 					}
 				}
 			}
@@ -202,6 +217,7 @@ type HarnessResult struct {
 	SolverTime   float64
 	Wall         float64
 	Transcript   string
+	WorkItems    int
 }
 
 type CheckOpts struct {
@@ -215,35 +231,163 @@ type CheckOpts struct {
 	XCheck   bool
 }
 
+// workSlots bounds the number of solver processes running at once across all
+// harnesses of a check.
+var workSlots = make(chan struct{}, 14)
+
+func runInterp(in *Interp, fn *ssa.Function, verbose bool) {
+	defer func() {
+		if r := recover(); r != nil {
+			in.inconclusive = append(in.inconclusive, fmt.Sprintf("engine crash: %v", r))
+			if verbose {
+				panic(r)
+			}
+		}
+	}()
+	if err := in.RunHarness(fn); err != nil {
+		in.inconclusive = append(in.inconclusive, "solver start: "+err.Error())
+	}
+}
+
+func mergeStats(dst *Stats, s Stats) {
+	dst.Paths += s.Paths
+	dst.PathsKilledUnwind += s.PathsKilledUnwind
+	dst.PathsInfeasible += s.PathsInfeasible
+	dst.Branches += s.Branches
+	dst.Instrs += s.Instrs
+	dst.Obligations += s.Obligations
+	dst.Discharged += s.Discharged
+	dst.TrivialObl += s.TrivialObl
+	dst.Unknowns += s.Unknowns
+	dst.PanicChecks += s.PanicChecks
+	for k, v := range s.Covers {
+		dst.Covers[k] += v
+	}
+	for k, v := range s.Funcs {
+		dst.Funcs[k] += v
+	}
+	for k, v := range s.Models {
+		dst.Models[k] += v
+	}
+	for k, v := range s.Havocked {
+		dst.Havocked[k] += v
+	}
+	for k, v := range s.ForkSites {
+		dst.ForkSites[k] += v
+	}
+	for _, a := range s.Assumptions {
+		found := false
+		for _, b := range dst.Assumptions {
+			if a == b {
+				found = true
+			}
+		}
+		if !found {
+			dst.Assumptions = append(dst.Assumptions, a)
+		}
+	}
+}
+
+func collect(res *HarnessResult, in *Interp, mu *sync.Mutex) {
+	mu.Lock()
+	defer mu.Unlock()
+	mergeStats(&res.Stats, in.stats)
+	res.Violations = append(res.Violations, in.violations...)
+	for k, v := range in.knownHits {
+		res.KnownHits[k] += v
+	}
+	res.Inconclusive = append(res.Inconclusive, in.inconclusive...)
+	for _, smp := range in.samples {
+		lab, _ := smp["_cover"].(string)
+		dup := false
+		for _, o := range res.Samples {
+			if o["_cover"] == lab {
+				dup = true
+			}
+		}
+		if !dup {
+			res.Samples = append(res.Samples, smp)
+		}
+	}
+	if in.solver != nil {
+		res.Sat += in.solver.NSat
+		res.Unsat += in.solver.NUnsat
+		res.Unknown += in.solver.NUnknown
+		res.SolverTime += in.solver.Time.Seconds()
+	}
+}
+
 func runOne(l *Loaded, h *HarnessInfo, opts CheckOpts, known []KnownFinding) *HarnessResult {
 	t0 := time.Now()
 	cfg := Config{Unwind: h.Unwind, UnwindFn: h.UnwindFn, MaxPaths: h.MaxPaths, Known: known, Verbose: opts.Verbose, SolverName: h.Solver, TimeoutMs: h.Timeout, Logic: h.Logic}
+	if mp, err := strconv.Atoi(os.Getenv("VERIF_MAXPATHS")); err == nil && mp > 0 {
+		cfg.MaxPaths = mp
+	}
 	os.MkdirAll(filepath.Join(VerifDir, "out", "smt"), 0o755)
 	cfg.Transcript = filepath.Join(VerifDir, "out", "smt", h.Name+".smt2")
-	in := NewInterp(l.Prog, cfg)
-	res := &HarnessResult{Info: h, Transcript: cfg.Transcript}
-	func() {
-		defer func() {
-			if r := recover(); r != nil {
-				in.inconclusive = append(in.inconclusive, fmt.Sprintf("engine crash: %v", r))
-				if opts.Verbose {
-					panic(r)
-				}
-			}
-		}()
-		if err := in.RunHarness(h.Fn); err != nil {
-			in.inconclusive = append(in.inconclusive, "solver start: "+err.Error())
-		}
-	}()
-	res.Stats = in.stats
-	res.Violations = in.violations
-	res.KnownHits = in.knownHits
-	res.Inconclusive = dedupe(in.inconclusive)
-	res.Samples = in.samples
-	if in.solver != nil {
-		res.Sat, res.Unsat, res.Unknown = in.solver.NSat, in.solver.NUnsat, in.solver.NUnknown
-		res.SolverTime = in.solver.Time.Seconds()
+	res := &HarnessResult{Info: h, Transcript: cfg.Transcript, KnownHits: map[string]int{}}
+	res.Stats.Covers = map[string]int{}
+	res.Stats.Funcs = map[string]int{}
+	res.Stats.Models = map[string]int{}
+	res.Stats.Havocked = map[string]int{}
+	res.Stats.ForkSites = map[string]int{}
+	var mu sync.Mutex
+	// coordinator: explores down to the frontier depth and collects work items
+	workSlots <- struct{}{}
+	coord := NewInterp(l.Prog, cfg)
+	coord.frontierDepth = h.Frontier
+	if coord.frontierDepth == 0 {
+		coord.frontierDepth = 7
 	}
+	if h.Frontier < 0 {
+		coord.frontierDepth = 0
+	}
+	runInterp(coord, h.Fn, opts.Verbose)
+	<-workSlots
+	collect(res, coord, &mu)
+	items := coord.frontier
+	if len(items) > 0 {
+		var wg sync.WaitGroup
+		next := make(chan int, len(items))
+		for i := range items {
+			next <- i
+		}
+		close(next)
+		nw := 12
+		if len(items) < nw {
+			nw = len(items)
+		}
+		for w := 0; w < nw; w++ {
+			wg.Add(1)
+			go func(w int) {
+				defer wg.Done()
+				for i := range next {
+					workSlots <- struct{}{}
+					wcfg := cfg
+					wcfg.Transcript = ""
+					if i == 0 {
+						wcfg.Transcript = filepath.Join(VerifDir, "out", "smt", h.Name+".w0.smt2")
+					}
+					in := NewInterp(l.Prog, wcfg)
+					for _, c := range items[i] {
+						in.prefix = append(in.prefix, decision{choice: c})
+					}
+					in.pinned = len(items[i])
+					runInterp(in, h.Fn, opts.Verbose)
+					<-workSlots
+					collect(res, in, &mu)
+				}
+			}(w)
+		}
+		wg.Wait()
+		res.WorkItems = len(items)
+	}
+	if opts.Verbose {
+		for _, k := range sortedKeys(res.Stats.ForkSites) {
+			fmt.Fprintf(os.Stderr, "fork-site %6d %s\n", res.Stats.ForkSites[k], k)
+		}
+	}
+	res.Inconclusive = dedupe(res.Inconclusive)
 	res.Wall = time.Since(t0).Seconds()
 	return res
 }
